@@ -735,9 +735,16 @@ def check(P, R):
     st = P.func(f'{RD}:RadiDict._set')
     mcalls = T.calls_to(st, 'self._make_route')
     R.require(mcalls, '_set: _make_route call not found')
+    mr_ = P.maybe_func(f'{RD}:RadiDict._make_route')
     for c in mcalls:
         a = c.args
         ok, det = True, ''
+        extra_kw = [k.arg for k in c.keywords if k.arg not in ('pnode', 'route_pattern', 'data', 'hooks', 'param_exclusions', 'param_filters', 'param_names')]
+        if extra_kw:
+            # the callee takes something the reference signature does not have (an offset into the lists, say): how rule tail and lists are paired is another protocol
+            R.undecided('C01.g', st, c, '_set -> _make_route', f'the call passes {extra_kw}, which the reference signature of _make_route does not have: no recogniser for this pairing of '
+                        f'rule tail and wildcard lists')
+            continue
         if len(a) >= 7 and isinstance(a[1], ast.Subscript) and isinstance(a[1].slice, ast.Slice) and a[1].slice.lower is not None:
             # pattern sliced by ptr -> exclusions / filters sliced by the wildcard count from the same _match
             m = [s for s in walk_shallow(st.node) if isinstance(s, ast.Assign) and isinstance(s.targets[0], ast.Tuple)
